@@ -7,7 +7,7 @@ id="$1"; m="$2"; tier="${3:-quick}"
 src="/tmp/seed/out/$id/$m"; dst="/verif/seeded/$id-$m"
 [ -d "$src" ] || src="$dst"
 [ -f "$src/patch.diff" ] || { echo "no patch in $src"; exit 2; }
-mkdir -p "$dst"; [ "$src" != "$dst" ] && cp "$src"/patch.diff "$src"/demo_test.go "$src"/meta.json "$dst"/ 2>/dev/null
+mkdir -p "$dst"; [ "$src" != "$dst" ] && [ ! -f "$dst/patch.diff" ] && cp "$src"/patch.diff "$src"/demo_test.go "$src"/meta.json "$dst"/ 2>/dev/null
 wt="/tmp/seedv/$id-$m"; rm -rf "$wt"; mkdir -p /tmp/seedv
 git -C /repo worktree add -q --detach "$wt" HEAD || exit 2
 place=$(head -1 "$dst/demo_test.go" | sed -n 's#.*place at: *##p' | tr -d ' \r')
